@@ -252,6 +252,7 @@ RULE = (
     "factor by LP (max t: c + t (chromaticity - c) in the hull of the normalised gamut vertices), membership by LP. Non-trivial = a contraction "
     "(some target outside the chromatic gamut), a dichromat, or a zero row; every L1-scaling case."
     " Both scalings run on one estimator, each twice, with the public state of the estimator byte-compared before and after."
+    " A third of the distance-scaling targets are very dim (totals 1e-14..1e-6; non-trivial label dim-target)."
 )
 
 PROP = Prop(
